@@ -97,7 +97,7 @@ Definition rnd_of_encdoc (v : eversion) (encd : doc) : list bytes :=
   | Some e =>
     let U := opt_str (dict_get e K_U) in
     let O := opt_str (dict_get e K_O) in
-    let r6 fek := [skipn 32 U; skipn 32 O; skipn 12 (opt_str (dict_get e K_Perms))] in
+    let r6 fek := [skipn 32 U; skipn 32 O; skipn 12 (p_aes_dec P fek (opt_str (dict_get e K_Perms)))] in
     match v with
     | EV1 _ _ _ => []
     | EV2 _ _ _ _ => [skipn 16 U]
